@@ -20,6 +20,9 @@ pub enum ContractError {
     #[error("No voters")]
     NoVoters {},
 
+    #[error("Voter {addr} is listed more than once")]
+    DuplicateVoter { addr: String },
+
     #[error("Unauthorized")]
     Unauthorized {},
 
